@@ -313,6 +313,22 @@ v("break-c14-shared-scratch-in-global", "break", "C14", "PUR-G", [
     (P, "expr.Lit(unescaper.Replace(token.Val))", "expr.Lit(wordScratch.keep(unescaper.Replace(token.Val)))"),
 ], "a method writes through its receiver, and the receiver is a package-level object shared by all calls")
 
+v("break-c09-reduction-budget", "break", "C09", "PARSE-STATE", [
+    (P, "\tdefaultField string\n}", "\tdefaultField string\n\tsteps        int\n}"),
+    (P, "\t\t// pull the top off the stack\n", "\t\tp.steps++\n\t\tif p.steps > 100000 {\n\t\t\treturn fmt.Errorf(\"query too complex\")\n\t\t}\n\t\t// pull the top off the stack\n"),
+], "a budget counted per reduction step: redundant parentheses cost steps")
+v("break-c11-parser-reset", "break", "C11", "DF-IDENT", [
+    (P, "func (p *parser) parse() (e *expr.Expression, err error) {", "func (p *parser) restart(input string) {\n\t*p = parser{lex: lex.Lex(input), stack: []any{}, nonTerminals: []lex.Token{{Typ: lex.TStart}}}\n}\n\nfunc (p *parser) parse() (e *expr.Expression, err error) {"),
+    (P, "\tex, err := p.parse()\n", "\tex, err := p.parse()\n\tif err != nil && strings.HasSuffix(input, \" \") {\n\t\tp.restart(strings.TrimRight(input, \" \"))\n\t\tex, err = p.parse()\n\t}\n"),
+], "a retry re-creates the parser value and loses the default field")
+v("break-c11-production-builds-literal", "break", "C11", "WRAP-COMMUTE", [
+    (R, "\tif literals, ok := isChainedOrLiterals(value); ok && len(literals) > 1 {", "\tif term.Op == expr.Literal && value.Op == expr.Literal && term.Left == value.Left {\n\t\treturn []any{expr.Lit(true)}, drop(nonTerminals, 1), true\n\t}\n\tif literals, ok := isChainedOrLiterals(value); ok && len(literals) > 1 {"),
+], "a production folds x:x into a constant leaf, which later productions scope like a bare term")
+v("break-c13-depth-twice", "break", "C13", "REC-ONCE", [
+    (E, "// Lit represents a literal expression", "func nesting(e *Expression) int {\n\tif e == nil {\n\t\treturn 0\n\t}\n\treturn 1 + deeper(e.Left)\n}\n\nfunc deeper(operand any) int {\n\tsub, ok := operand.(*Expression)\n\tif !ok {\n\t\treturn 0\n\t}\n\tif nesting(sub) > 0 {\n\t\treturn nesting(sub)\n\t}\n\treturn 0\n}\n\n// Lit represents a literal expression"),
+    (E, "\tfn, found := validators[e.Op]\n", "\tif nesting(e) > 100000 {\n\t\treturn fmt.Errorf(\"nested too deeply\")\n\t}\n\tfn, found := validators[e.Op]\n"),
+], "a depth guard visits every child twice through a second function: exponential")
+
 def main():
     os.makedirs(OUT, exist_ok=True)
     for f in os.listdir(OUT):
